@@ -68,6 +68,37 @@ pub struct Run {
   pub sub: Sub,
 }
 
+/// Pipelines that are still open when an execution ends are reference cycles (a
+/// subject holds its subscribers, their operators hold subscriptions that hold
+/// the subscribers' cells) and would be leaked, a few hundred bytes per
+/// execution — tens of gigabytes over a thorough run. Nothing is observed any
+/// more at this point: unsubscribe everything. (A panic during this tear-down is
+/// not reported: the histories that contain an unsubscription are C02's.)
+impl Drop for Run {
+  fn drop(&mut self) {
+    if std::thread::panicking() {
+      return;
+    }
+    let _ = std::panic::catch_unwind(std::panic::AssertUnwindSafe(|| {
+      self.sub.unsubscribe();
+      for s in self.cx.hot_l.drain(..) {
+        s.unsubscribe();
+      }
+      for s in self.cx.hot_t.drain(..) {
+        s.unsubscribe();
+      }
+      for r in &self.cx.raw_l {
+        r.borrow_mut().clear();
+      }
+      for r in &self.cx.raw_t {
+        if let Ok(mut g) = r.lock() {
+          g.clear();
+        }
+      }
+    }));
+  }
+}
+
 impl Run {
   /// Build the world and context only (nothing subscribed yet).
   pub fn prepare(n_inputs: usize, form: Form) -> Run {
